@@ -124,6 +124,14 @@ def BOUNDED(tier, seed):
                 if err:
                     fails.append({'key': 'default', 'summary': f'DefaultImputer subset={sub!r} n={n}: {err}', 'subset': repr(sub),
                                   'observed': err})
+                # a sparse instance: a requested feature that the instance does not carry still gets the configured default
+                if 'b' in set(sub):
+                    evals += 1
+                    distinct.add(('default_sparse', str(sub), n))
+                    err = _check_call(imp, rec, copy.copy(sub), {'a': 1000, 'c': 1002}, n, None, False, defaults)
+                    if err:
+                        fails.append({'key': 'default', 'summary': f'DefaultImputer subset={sub!r} n={n} on an instance without b: {err}',
+                                      'subset': repr(sub), 'observed': err})
     return [{'name': 'imputer_runtime_contract', 'evaluations': evals, 'distinct_nontrivial': len(distinct),
              'rule': 'recording model; every subset of 3 features as list/set/tuple x n_samples in {1,3} x 4 storage kinds x both '
                      'strategies x seeded storage contents, plus DefaultImputer; the interface clauses evaluated natively on every call',
